@@ -1,17 +1,21 @@
 #!/usr/bin/env python3
 """seed_keep.py <PROP> <slug> <needs...> : copy a confirmed seeded change from /tmp/seed/<PROP>-out into /verif/seeded/<PROP>-<slug>/"""
 import sys, os, shutil, json, glob
-prop, slug, needs = sys.argv[1], sys.argv[2], ' '.join(sys.argv[3:])
-src = '/tmp/seed/%s-out' % prop
+tag, slug, needs = sys.argv[1], sys.argv[2], ' '.join(sys.argv[3:])
+prop = tag[:3]   # round-2 scratch directories are named C01b, ...
+src = '/tmp/seed/%s-out' % tag
 dst = '/verif/seeded/%s-%s' % (prop, slug)
 os.makedirs(dst, exist_ok=True)
 for f in os.listdir(src):
     p = os.path.join(src, f)
     if os.path.isfile(p) and os.path.getsize(p) < 400000 and not f.endswith(('.log', '.o')) and not os.access(p, os.X_OK) or f.endswith('.sh'):
-        shutil.copy(p, dst)
+        if not f.startswith('foreign'):
+            shutil.copy(p, dst)
+    elif os.path.isdir(p) and f == 'g4stub':
+        shutil.copytree(p, os.path.join(dst, f), dirs_exist_ok=True)
 meta = {'property': prop, 'needs_to_manifest': needs,
         'confirmed': {'compiles': True, 'repository_tests_pass': '19/19', 'demo_fails_with_change': True, 'demo_passes_without_change': True,
-                      'how': '/tmp/seed/confirm.sh %s (scratch worktree /tmp/seed/%s: git apply patch.diff; cmake+ninja; ctest -j16; run_demo.sh; git apply -R; rebuild; run_demo.sh)' % (prop, prop)},
+                      'how': '/tmp/seed/confirm(2).sh %s (scratch worktree /tmp/seed/%s: git apply patch.diff; cmake+ninja; ctest -j16; run_demo.sh; git apply -R; rebuild; run_demo.sh)' % (tag, tag)},
         'origin': 'fresh sub-agent given only the property text and its own scratch worktree', 'caught_by': {}}
 json.dump(meta, open(os.path.join(dst, 'meta.json'), 'w'), indent=1)
 print(dst, os.listdir(dst))
